@@ -151,9 +151,19 @@ func (x *XSlice) Add(roots ...ssa.Value) {
 			}
 			if cell := cellOf(t.X); cell != nil {
 				x.cell(cell, push)
+			} else if mk, ok := baseOf(t.X).(*ssa.MakeSlice); ok {
+				// the backing array of a make: whoever is handed it (or a window of it) may have filled it
+				x.cell(mk, push)
 			}
 		case *ssa.Alloc:
 			x.cell(t, push)
+		case *ssa.MakeSlice:
+			x.cell(t, push)
+		case *ssa.Slice:
+			// a window of local storage handed on as a value: what it holds was written through the storage
+			if b := baseOf(t); b != nil {
+				x.cell(b, push)
+			}
 		case *ssa.Call:
 			// the result of a module helper: continue at what it returns
 			callee := t.Call.StaticCallee()
@@ -175,7 +185,7 @@ func (x *XSlice) Add(roots ...ssa.Value) {
 	}
 }
 
-func (x *XSlice) cell(cell *ssa.Alloc, push func(ssa.Value)) {
+func (x *XSlice) cell(cell ssa.Value, push func(ssa.Value)) {
 	visited := map[ssa.Value]bool{}
 	var visit func(p ssa.Value)
 	visit = func(p ssa.Value) {
